@@ -391,6 +391,34 @@ func (g *gctx) genStmt(d int, indent string) *gnode {
 			return gn(indent, f.name, "(", g.genArgs(d, f.ar), ").p\n")
 		}
 	}
+	if (g.bias == 'F' || g.bias == 0) && len(indent) == 0 && g.r.Intn(8) == 0 {
+		// closures that leave their call inside a container and are called after other calls of the same function
+		g.use("closure-escape")
+		n := g.r.Intn(1000)
+		mk, c := fmt.Sprintf("mk%d", n), fmt.Sprintf("cl%d", n)
+		switch g.r.Intn(3) {
+		case 0:
+			return gn(mk, " := {|n, step: 1| w := n * 2; {get: {|| n}, nxt: {|| n + step}, dbl: {|| w}}}\n",
+				c, " := ", mk, "(", pos("argument", g.genI(1)), ", step: ", pos("kwarg", g.genI(1)), ")\n",
+				mk, "(100, step: 1000)\n", "{|n, step: 7| n}(50)\n",
+				"[", c, ".get(), ", c, ".nxt(), ", c, ".dbl()].p\n")
+		case 1:
+			return gn(c, " := [1, 2, 3]@{|i| [{|x| x + i}]}\n", "[4, 5]@{|i| i}\n",
+				"g", fmt.Sprint(n), " := ", c, "[1][0]\n", "g", fmt.Sprint(n), "(", pos("argument", g.genI(1)), ").p\n")
+		default:
+			return gn(mk, " := {|n| acc := [n]; {|x| acc + [x, n]}}\n", c, " := [", mk, "(1), ", mk, "(2)]\n", mk, "(9)\n",
+				"h", fmt.Sprint(n), " := ", c, "[0]\n", "h", fmt.Sprint(n), "(", pos("argument", g.genI(1)), ").p\n")
+		}
+	}
+	if (g.bias == 'F' || g.bias == 'E') && len(indent) == 0 && g.r.Intn(8) == 0 {
+		// objects unpacked into a call stay what they were: the same objects are used again afterwards
+		g.use("kw-source-kept")
+		n := g.r.Intn(1000)
+		a, b, f := fmt.Sprintf("oa%d", n), fmt.Sprintf("ob%d", n), fmt.Sprintf("kf%d", n)
+		return gn(a, " := {kx: ", pos("pair-value", g.genI(1)), "}\n", b, " := {ky: ", pos("pair-value", g.genI(1)), ", kz: 3}\n",
+			f, " := {|kx: 10, ky: 20, kz: 30| [kx, ky, kz, \\_]}\n",
+			f, "(**", a, ", **", b, ").p\n", f, "(**", a, ").p\n", f, "(**", b, ", **", a, ").p\n", "[", a, ", ", b, "].p\n")
+	}
 	if g.bias == 'T' && g.r.Intn(2) == 0 {
 		return g.genIterStmt(d, indent)
 	}
